@@ -5,6 +5,7 @@ import DriverLib.ReduceOps
 import DriverLib.UnaryOps
 import DriverLib.MatMulOps
 import DriverLib.ConvOps
+import DriverLib.RecOps
 open Lean
 namespace Drv
 open Gonnx
@@ -14,7 +15,7 @@ def padTo (ins : List (Option DT)) (n : Nat) : List (Option DT) := ins ++ List.r
 
 /-- operator-level case: `Init` attribute errors are modelled per operator; then the gate (over the
 regenerated registry); then the operator model -/
-def runOp (op : String) (attrs : Json) (ins : List (Option DT)) : Answer :=
+def runOp (op : String) (attrs : Json) (ins : List (Option DT)) (nOut : Nat := 1) : Answer :=
   match gate Generated.registry op (dtsOf ins) with
   | .error e =>
     if op == "Cast" && e == .inputType && ins.length == 1 then
@@ -36,6 +37,7 @@ def runOp (op : String) (attrs : Json) (ins : List (Option DT)) : Answer :=
     else if isConstOp op then runConstOp op attrs ins
     else if isMatMulOp op then runMatMulOp op attrs ins
     else if op == "Conv" then runConvOp attrs ins
+    else if isRecOp op then runRecOp op attrs ins nOut
     else { model := { status := "unmodelled" } }
 
 end Drv
